@@ -4,6 +4,7 @@ import Driver.Util
 import Driver.C15
 import Driver.Codec
 import Driver.Engine
+import Driver.Sync
 import Driver.Stream
 
 partial def loop {σ : Type} (step : σ → String → σ × String) (hin hout : IO.FS.Stream) (s : σ) : IO Unit := do
@@ -22,5 +23,6 @@ def main (args : List String) : IO UInt32 := do
   | ["c15"] => loop Drv.C15.step hin hout (); hout.flush; return 0
   | ["engine"] => loop Drv.Engine.step hin hout none; hout.flush; return 0
   | ["stream"] => loop Drv.Stream.step hin hout {}; hout.flush; return 0
+  | ["sync"] => loop Drv.Sync.step hin hout {}; hout.flush; return 0
   | ["codec"] => loop Drv.Codec.step hin hout (); hout.flush; return 0
   | _ => IO.eprintln "usage: zvdriver <proto>"; return 2
